@@ -139,3 +139,5 @@ func (w *classicWorld) allClientsDone() bool {
 func (w *classicWorld) settle(d time.Duration) string {
 	return w.s.RunUntil(d, nil)
 }
+
+func simrtSleep(d time.Duration) { simrt.Sleep(d, "harness.sleep") }
